@@ -36,6 +36,7 @@ type c10Case struct {
 	Video     string `json:"video,omitempty"`  // fMP4 video codec: "" = h264, h265 (announced as hvc1), h265:hev1, av1, vp9
 	Audio     string `json:"audio,omitempty"`  // fMP4 audio codec: "" = aac, opus
 	VScale    int    `json:"vscale,omitempty"` // fMP4: timescale of the video track (default 90000)
+	Frames    int    `json:"frames,omitempty"` // video frames per one-second segment (default 4)
 }
 
 func c10IsVideo(kind string) bool {
@@ -185,12 +186,16 @@ func c10Build(cs c10Case) (*c10Stream, error) {
 			for ti, t := range lr {
 				if c10IsVideo(t.kind) {
 					// 4 frames of 250 ms; with B-frames the decode order is I P B B with presentation offsets
-					for k := 0; k < 4; k++ {
-						t90 := cs.Base + int64(j)*90000 + int64(k)*22500
-						u := sUnit{Track: ti, Sync: k == 0, Data: c10VideoData(t.kind, seq, k == 0), Dur: 22500}
+					nfr, fdur := 4, int64(22500)
+					if cs.Frames > 0 {
+						nfr, fdur = cs.Frames, 90000/int64(cs.Frames)
+					}
+					for k := 0; k < nfr; k++ {
+						t90 := cs.Base + int64(j)*90000 + int64(k)*fdur
+						u := sUnit{Track: ti, Sync: k == 0, Data: c10VideoData(t.kind, seq, k == 0), Dur: fdur}
 						seq++
 						u.DTS = t90
-						if cs.BFrames {
+						if cs.BFrames && cs.Frames == 0 {
 							u.PTSOff = []int64{22500, 67500, 0, 0}[k]
 						}
 						if vscale != 90000 {
